@@ -39,6 +39,7 @@ struct Round {
   int unlock_form = 0;
   u32 cs_yields = 0;
   u32 cs_suspend = 0;  // suspensions of the coroutine while it holds the lock
+  bool sticky_relock = false;  // GuardSticky: after Unlock, lock again through the same guard from another executor
   u32 gap = 0;
 };
 
@@ -108,6 +109,10 @@ void MutexCase(Ctx& ctx) {
       rd.unlock_form = static_cast<int>(ctx.rng.Below(kUnlockForms));
       rd.cs_yields = ctx.rng.Below(3);
       rd.cs_suspend = ctx.rng.Below(3) == 0 ? ctx.rng.In(1, 2) : 0;
+      rd.sticky_relock = ctx.rng.Coin();
+      if (rd.lock_form == lGuardSticky && rd.sticky_relock && (rd.unlock_form == uUnlock || rd.unlock_form == uUnlockOn)) {
+        ++total;  // the second acquisition through the same guard
+      }
       rd.gap = ctx.rng.Below(3);
       p.push_back(rd);
       ++total;
@@ -123,10 +128,23 @@ void MutexCase(Ctx& ctx) {
   TagExec e1{1, *pool};
   TagExec e2{2, *pool2};
   std::atomic<int> bad_tag{0};
+  std::atomic<int> bad_tag_relock{0}, bad_tag_relock_seen{-1};
+  bool any_relock = false;
+  for (auto& pl : plan) {
+    for (auto& rd : pl) {
+      any_relock = any_relock || (rd.lock_form == lGuardSticky && rd.sticky_relock &&
+                                  (rd.unlock_form == uUnlock || rd.unlock_form == uUnlockOn));
+    }
+  }
 
   auto body = [&](int id) -> yaclib::Future<> {
     co_await yaclib::On(e1);
     for (auto& rd : plan[static_cast<std::size_t>(id)]) {
+      if (CurTag() != 1) {
+        // with Batching a waiter is resumed on the thread of whoever unlocked, which may be the second executor's
+        // (the sticky re-lock holds the lock there); every round starts from e1 so that the expectations below hold
+        co_await yaclib::On(e1);
+      }
       w.requests.fetch_add(1, kRlx);
       u64 req = Stamp();
       switch (rd.lock_form) {
@@ -204,6 +222,23 @@ void MutexCase(Ctx& ctx) {
             // sticky: back on the executor the coroutine had when it asked for the lock
             if (CurTag() != 1) {
               bad_tag.fetch_add(1, kRlx);
+            }
+            if (rd.sticky_relock) {
+              // the same guard object is used again from another executor: "home" is now that executor, whatever
+              // the guard remembered from its first (possibly contended) acquisition
+              co_await yaclib::On(e2);
+              w.requests.fetch_add(1, kRlx);
+              u64 req2 = Stamp();
+              co_await g.Lock();
+              Enter(w, req2, id, true);
+              Jitter(rd.cs_yields);
+              Leave(w);
+              co_await g.Unlock();
+              if (CurTag() != 2) {
+                bad_tag_relock.fetch_add(1, kRlx);
+                bad_tag_relock_seen.store(CurTag(), kRlx);
+              }
+              co_await yaclib::On(e1);
             }
           } else if (rd.unlock_form == uUnlockHere) {
             g.UnlockHere();
@@ -320,8 +355,12 @@ void MutexCase(Ctx& ctx) {
             w.grants.load(kRlx));
   ctx.Check(bad_tag.load(kRlx) == 0, "resumed-on-executor", "C14,C13",
             "%d resumptions after UnlockOn / sticky Unlock happened on the wrong executor", bad_tag.load(kRlx));
-  if (FIFO && n == 1) {
-    // one worker: coroutines never interleave, so arrival order is exactly the order of request stamps
+  ctx.Check(bad_tag_relock.load(kRlx) == 0, "resumed-on-executor", "C14,C13",
+            "%d times a StickyGuard that was locked again from another executor (tag 2) put the coroutine on executor tag %d "
+            "after Unlock()", bad_tag_relock.load(kRlx), bad_tag_relock_seen.load(kRlx));
+  if (FIFO && n == 1 && !any_relock) {
+    // one worker (and no request issued from the second executor): coroutines never interleave, so arrival order is
+    // exactly the order of request stamps
     u32 cnt = w.nlog.load(kRlx);
     if (cnt > 64) {
       cnt = 64;
